@@ -105,6 +105,7 @@ def results(tier, seed):
             r = {"ok": False, "err": "harness: no response", "tool_error": True}
         out["|".join(map(str, k))] = r
     json.dump(out, open(rp, "w"))
+    c.prune_cache(f"genresults-{tier}-", keep=3)
     return cases, out, units, cst
 
 
